@@ -149,7 +149,7 @@ def skeletons(tname, nsets, tier):
     return out
 
 
-QUICK_TEMPLATES = ("chain", "sumrange", "rangeform", "cse", "ifs")
+QUICK_TEMPLATES = ("chain", "sumrange", "rangeform", "cse", "ifs", "unbounded")
 
 
 def obligations(tier):
@@ -167,8 +167,12 @@ def obligations(tier):
             for cfg in ("nodata", "stored", "yml", "json", "pkl"):
                 if cfg in ("json", "pkl") and t not in ("chain", "cse"):
                     continue
+                if t == "unbounded" and cfg == "stored":
+                    continue
                 for tag, seq, mid, sk in skeletons(t, 1, tier):
                     add(t, cfg, 1, tag, seq, mid, sk)
+                if t == "unbounded":
+                    continue
                 if cfg in ("nodata", "stored") or (cfg == "yml" and t == "sumrange"):
                     for tag, seq, mid, sk in skeletons(t, 2, "thorough"):
                         if (seq, mid is not None) in (((0, 1), True), ((0, 0), True), ((1, 0), False)):
